@@ -72,26 +72,29 @@ def completeCsum (tcp : Bool) (ip l4 pay : Bytes) : Bytes :=
   let c := csumOfSum s
   setBe16 l4 off (if !tcp ∧ c = 0 then 65535 else c)
 
+/-- IP header of a segment of `segLen` bytes, the `i`-th of its superpacket. -/
+def segIP (hdr : Bytes) (segLen i : Nat) : Bytes :=
+  if get hdr 0 / 16 = 6 then setBe16 hdr 4 (segLen - 40)
+  else
+    let h := setBe16 hdr 2 segLen
+    let h := setBe16 h 4 ((be16 hdr 4 + i) % 65536)
+    let h := setBe16 h 10 0
+    setBe16 h 10 (csumOfSum (wordSum h))
+
+/-- L4 header of segment `i` of `n` (before checksum completion); `g` = gso_size, `c` its payload. -/
+def segL4 (tcp : Bool) (thdr : Bytes) (g n i : Nat) (c : Bytes) : Bytes :=
+  if tcp then
+    let t := setBe32 thdr 4 ((be32 thdr 4 + i * g) % 4294967296)
+    let f := get thdr 13
+    let f := if i + 1 < n then clearBit (clearBit f 0) 3 else f      -- FIN, PSH: last segment only
+    let f := if 0 < i then clearBit f 7 else f                       -- CWR: first segment only
+    setByte t 13 f
+  else setBe16 thdr 4 (thdr.length + c.length)
+
 /-- segment `i` (of `n`) carrying payload piece `c`; `g` = gso_size. -/
 def buildSeg (tcp : Bool) (hdr thdr : Bytes) (g n i : Nat) (c : Bytes) : Bytes :=
-  let isV6 := get hdr 0 / 16 = 6
-  let segLen := hdr.length + thdr.length + c.length
-  let ip :=
-    if isV6 then setBe16 hdr 4 (segLen - 40)
-    else
-      let h := setBe16 hdr 2 segLen
-      let h := setBe16 h 4 ((be16 hdr 4 + i) % 65536)
-      let h := setBe16 h 10 0
-      setBe16 h 10 (csumOfSum (wordSum h))
-  let l4 :=
-    if tcp then
-      let t := setBe32 thdr 4 ((be32 thdr 4 + i * g) % 4294967296)
-      let f := get thdr 13
-      let f := if i + 1 < n then clearBit (clearBit f 0) 3 else f      -- FIN, PSH: last segment only
-      let f := if 0 < i then clearBit f 7 else f                       -- CWR: first segment only
-      setByte t 13 f
-    else setBe16 thdr 4 (thdr.length + c.length)
-  ip ++ completeCsum tcp ip l4 c ++ c
+  let ip := segIP hdr (hdr.length + thdr.length + c.length) i
+  ip ++ completeCsum tcp ip (segL4 tcp thdr g n i c) c ++ c
 
 def enumFrom {α} : Nat → List α → List (Nat × α)
   | _, [] => []
